@@ -1684,7 +1684,6 @@ def run_avc(ctx, n) -> dict:
             ctx.case(('avc', avc_reference(p)), True, {'avc', 'avc:generic'}, sample={'frame': avc_reference(p)[:32].hex()})
 
         ctx.hyp(f'avc/generic{resp}', one_generic, generic, max_examples=n)
-    ctx.exclude('avc extended subunit type/id (documented unsupported)', 0)
     return covered
 
 
